@@ -64,6 +64,12 @@ impl Decoder for Codec {
             return Ok(None);
         }
 
+        // `quick_protobuf` does not check that a nested field ends within the message
+        // that contains it and misbehaves on such input, so we need to check it upfront.
+        if !check_nesting(&rest[..len], Nesting::Message) {
+            return Err(io::Error::other("Malformed message"));
+        }
+
         let mut reader = BytesReader::from_bytes(rest);
 
         let msg = reader
@@ -74,6 +80,86 @@ impl Decoder for Codec {
 
         Ok(Some(msg))
     }
+}
+
+/// Which fields of the message that is being checked are messages themselves.
+#[derive(Clone, Copy)]
+enum Nesting {
+    /// `Message`: `wantlist`, `payload` and `blockPresences` are messages.
+    Message,
+    /// `Wantlist`: `entries` are messages.
+    Wantlist,
+    /// `Entry`, `Block`, `BlockPresence`: no nested messages.
+    Leaf,
+}
+
+/// Reads a protobuf varint, the way `quick_protobuf` consumes it (at most 10 bytes).
+fn read_varint(buf: &[u8]) -> Option<(u64, &[u8])> {
+    let mut value = 0u64;
+
+    for (i, b) in buf.iter().enumerate().take(10) {
+        value |= u64::from(b & 0x7f) << (7 * i);
+
+        if b & 0x80 == 0 {
+            return Some((value, &buf[i + 1..]));
+        }
+    }
+
+    None
+}
+
+/// Checks that every field of the encoded message ends within the message, and
+/// that this also holds for all the nested messages.
+fn check_nesting(mut buf: &[u8], nesting: Nesting) -> bool {
+    while !buf.is_empty() {
+        let Some((tag, rest)) = read_varint(buf) else {
+            return false;
+        };
+
+        // `quick_protobuf` reads tags as 32 bit varints
+        let tag = tag as u32;
+
+        buf = match tag & 0x7 {
+            // varint
+            0 => match read_varint(rest) {
+                Some((_, rest)) => rest,
+                None => return false,
+            },
+            // 64 bit
+            1 if rest.len() >= 8 => &rest[8..],
+            // 32 bit
+            5 if rest.len() >= 4 => &rest[4..],
+            // length delimited
+            2 => {
+                let Some((len, rest)) = read_varint(rest) else {
+                    return false;
+                };
+
+                if len > rest.len() as u64 {
+                    return false;
+                }
+
+                let (field, rest) = rest.split_at(len as usize);
+
+                let nested = match (nesting, tag) {
+                    (Nesting::Message, 10) => Some(Nesting::Wantlist),
+                    (Nesting::Message, 26 | 34) | (Nesting::Wantlist, 10) => Some(Nesting::Leaf),
+                    _ => None,
+                };
+
+                if let Some(nested) = nested {
+                    if !check_nesting(field, nested) {
+                        return false;
+                    }
+                }
+
+                rest
+            }
+            _ => return false,
+        };
+    }
+
+    true
 }
 
 pub(crate) fn new_want_block_entry<const S: usize>(
